@@ -39,9 +39,11 @@ def ensure_wt():
 
 
 def suite():
-    junit = os.path.join(TARGET, "nextest", "pb", "junit.xml")
-    if os.path.exists(junit):
-        os.remove(junit)
+    # nextest writes the junit report under the WORKSPACE's target directory, not under CARGO_TARGET_DIR
+    junit = os.path.join(WT, "target", "nextest", "pb", "junit.xml")
+    for j in (junit, os.path.join(TARGET, "nextest", "pb", "junit.xml")):
+        if os.path.exists(j):
+            os.remove(j)
     rc, out = sh("cargo nextest run --workspace --no-fail-fast --tool-config-file pb:/w/lib/nextest.toml --profile pb "
                  "--test-threads 8 --offline 2>&1 | tail -n 40")
     passed, failed = set(), set()
@@ -135,9 +137,10 @@ def main():
             r = suite()
             for d in batch:
                 update(d, suite_with_patch_stable_missing=r["n_stable_missing"], suite_batch=[os.path.basename(x) for x in batch],
-                       suite_passed=r["passed"], suite_failed=r["failed"], suite_missing_names=r["stable_missing"][:10])
+                       suite_passed=r["passed"], suite_failed=r["failed"], suite_missing_names=r["stable_missing"][:10],
+                       suite_tail=r.get("tail", "")[-800:])
             print("suite with", [os.path.basename(x) for x in batch], "->", r["passed"], "passed,", r["n_stable_missing"],
-                  "stable tests missing", r["stable_missing"][:10], flush=True)
+                  "stable tests missing", r["stable_missing"][:5], r.get("tail", "")[-600:], flush=True)
             remaining = rest
         ensure_wt()
 
